@@ -11,7 +11,8 @@ open Flamego.Writer
 def parseOp : List String → Option Op
   | ["W", "wh", c] => some (.writeHeader (natOf c))
   | ["W", "w", l, f] => some (.write (natOf l) (natOf f))
-  | ["W", "we", l, f] => some (.write (natOf l) (natOf f))   -- the underlying writer also returned an error: bytes forwarded are counted all the same
+  | ["W", "we", l, f] => some (.write (natOf l) (natOf f))
+  | ["W", "wc", l, f] => some (.write (natOf l) (natOf f))   -- the same bytes pushed through io.Copy: one Write   -- the underlying writer also returned an error: bytes forwarded are counted all the same
   | ["W", "fl"] => some .flush
   | ["W", "bf", h] => some (.before (natOf h))
   | ["W", "st"] => some .status
@@ -72,5 +73,28 @@ def session2 (args : List String) (lines : List (List String)) : List String :=
             s!"{obs} {n'.o.status} {n'.o.size} {b01 n'.o.written} {n'.i.status} {n'.i.size} {b01 n'.i.written} {n'.log.length}" :: go n' rest
         | _ => "bad-op" :: go n rest
   "new" :: go (Nest.init oh ih) lines
+
+/-! `NEW writerf <method>` sessions: the writer a handler is given by a real Flame; one request per line
+    (`RQ <op> …`, ops spelled `wh:201`, `w:3:2`, `fl`, `bf:7`, `st`, `sz`, `wr`).  Every request starts from `init`:
+    nothing an earlier request did to its own writer is visible. -/
+
+def sessionF (args : List String) (lines : List (List String)) : List String :=
+  let head := args.head? == some "HEAD"
+  let one (l : List String) : String :=
+    match l with
+    | "RQ" :: toks =>
+      let rec go (w : W) : List String → List String × W
+        | [] => ([], w)
+        | t :: rest =>
+          match parseOp ("W" :: t.splitOn ":") with
+          | none => let r := go w rest; ("bad" :: r.1, r.2)
+          | some op =>
+            let w' := step w op
+            let r := go w' rest
+            (s!"{observe w' op} {w'.status} {w'.size} {if w'.written then 1 else 0}" :: r.1, r.2)
+      let r := go (init head) toks
+      joinWith ";" r.1 ++ " | " ++ showTrace r.2
+    | _ => "bad-op"
+  "new" :: lines.map one
 
 end Flamego.Driver.Writer
